@@ -3,6 +3,6 @@ CONSTANTS
   T <- TraceT
   StrictA = FALSE
   CheckCat = FALSE
-INVARIANTS NoLedgerWrite TempNeverWritten Durable CrashRestores
+INVARIANTS NoLedgerWrite TempNeverWritten Durable CrashRestores CacheCoherent
 POSTCONDITION TraceAccepted
 CHECK_DEADLOCK FALSE
